@@ -5,8 +5,8 @@ cd "$(dirname "$0")"
 export GOFLAGS=-mod=mod GOPROXY=off GOSUMDB=off GOTOOLCHAIN=local
 mkdir -p build evidence replays
 (cd harness && sh gen_gomod.sh && go test -c -tags verif -o ../build/harness.test .)
-# the Lean definitions translated from /repo's Go source (Gen/Arith) are regenerated before anything is built on them
-(cd harness && go run ./cmd/go2lean -out ../lean/ElysModel/Gen/Arith)
+# every Lean file generated from /repo's Go source (Gen/*) is regenerated before anything is built on it
+sh lib/regen.sh
 python3 lib/gen_lean_roots.py
 (cd lean && lake build ElysModel driver)
 echo setup ok
